@@ -84,10 +84,19 @@ def check(case: Dict[str, Any]) -> CaseInfo:
             if heaviest_path_ties(list(orig.nodes), [(u, v, float(orig.edges[u, v]["weight"])) for u, v in orig.edges]):
                 classes.append("several_equally_heavy_paths")
             diverged = False
+            last_dir, changed_since_save = None, False
             for i, op in enumerate(case["history"]):
+                if op[0] == "reweight":
+                    changed_since_save = True
                 step = f"step {i} {op[0]}"
                 if op[0] == "cycle":
                     out_dir = os.path.join(d, f"cp{i}")
+                    if len(op) > 1 and op[1] and last_dir is not None:
+                        out_dir = last_dir  # a later state of the graph saved under the name used before
+                        classes.append("saved_again_into_the_same_directory")
+                        if changed_since_save:
+                            classes.append("saved_again_into_the_same_directory_after_a_change")
+                    last_dir, changed_since_save = out_dir, False
                     bd_before = hta_call("breakdown(before save)", lambda: breakdown_rows(cur))
                     before = snapshot(cur)  # the object being saved: the restored one must be identical to it
                     zip_file = hta_call("save", lambda: cur.save(out_dir))
@@ -152,6 +161,11 @@ def c19_case(draw):
         if k == "reweight":
             hist.append([k, [[draw(st.integers(0, 200)), draw(st.sampled_from([0, 1, 5, 50, 500]))]
                              for _ in range(draw(st.sampled_from([1, 2, 4])))]])
+        elif k == "cycle":
+            same = draw(st.sampled_from([False, True, True]))  # True: re-use the directory of the previous save
+            if same and any(h[0] == "cycle" for h in hist) and hist[-1][0] != "reweight" and draw(st.booleans()):
+                hist.append(["reweight", [[draw(st.integers(0, 200)), draw(st.sampled_from([0, 1, 5, 50, 500]))]]])
+            hist.append([k, same])
         else:
             hist.append([k])
     if not any(h[0] == "cycle" for h in hist):
